@@ -406,12 +406,26 @@ impl<'a> BorrowedTerm<'a> {
             _ => None,
         }
     }
+
+    /// An improper list without elements has no cons cell: it is its tail
+    /// (`binary_to_term` decodes a `LIST_EXT` of length zero to the tail term).
+    fn without_empty_cells(&self) -> &BorrowedTerm<'a> {
+        let mut term = self;
+        while let BorrowedTerm::ImproperList { elements, tail } = term {
+            if !elements.is_empty() {
+                break;
+            }
+            term = tail;
+        }
+        term
+    }
 }
 
 impl<'a> Ord for BorrowedTerm<'a> {
     fn cmp(&self, other: &Self) -> Ordering {
-        match borrowed_type_order(self).cmp(&borrowed_type_order(other)) {
-            Ordering::Equal => match (self, other) {
+        let (this, other) = (self.without_empty_cells(), other.without_empty_cells());
+        match borrowed_type_order(this).cmp(&borrowed_type_order(other)) {
+            Ordering::Equal => match (this, other) {
                 (BorrowedTerm::Integer(a), BorrowedTerm::Integer(b)) => a.cmp(b),
                 (BorrowedTerm::Integer(a), BorrowedTerm::BigInt(b)) => compare_int_bigint(*a, b),
                 (BorrowedTerm::BigInt(a), BorrowedTerm::Integer(b)) => compare_bigint_int(a, *b),
@@ -513,12 +527,12 @@ impl<'a> Ord for BorrowedTerm<'a> {
                         bits: bbits,
                     },
                 ) => a.cmp(b).then_with(|| abits.cmp(bbits)),
-                _ => match (self.bitstring_parts(), other.bitstring_parts()) {
+                _ => match (this.bitstring_parts(), other.bitstring_parts()) {
                     // For bit-strings whose unused trailing bits are zero this is the bit-wise order.
                     (Some((a, abits)), Some((b, bbits))) => {
                         a.cmp(b).then_with(|| abits.cmp(&bbits))
                     }
-                    _ => compare_list_terms(self, other),
+                    _ => compare_list_terms(this, other),
                 },
             },
             other => other,
